@@ -48,6 +48,11 @@ def check(repo, col, tier):
     c08.rank_converter(repo, col, "R-C19-rank")
     # "integrate simulates the model displayed by .edges": every synapse reads from and delivers to the compartments its row names
     from . import c09, idx as _idx
+    # "integrate simulates the model that the tables show": the coupling conductances are computed row by row from the parameters of
+    # the compartments of that row, and scaled by the capacitance of the compartment that RECEIVES the current (shared with C01/C12)
+    from . import cable as _cable
+    col.rule("R-C19-conductances", "coupling conductances use the roles of each edge row and the sink's capacitance", 6)
+    _cable.check_axial(repo, col, {"roles": "R-C19-conductances", "cap": "R-C19-conductances"}, want=("roles", "cap"))
     col.rule("R-C19-simulates", "synaptic currents are computed from and delivered to the compartments named in the edge table", 8)
     cl = _idx.compute_slots(repo, col, "R-C19-simulates", emit=())
     for nm in ("_step_synapse_state", "_synapse_currents"):
